@@ -21,6 +21,7 @@ type guardRow struct {
 	Acc   string // subject is getter Acc of the (element of the) parameter
 	Acc2  string // HORD on elements: second getter
 	Param2 int
+	NonEmpty int // 1 + index of a list parameter assumed non-empty
 	Props string // properties that include this row
 	Doc   string // sentence of the documentation / property the row transcribes
 }
@@ -80,8 +81,8 @@ var guardTable = []guardRow{
 	{Func: "detector.CheckExtendedSpatialIdsOverlap", Class: "ARITY5", Param: 1, Props: "C05 C15", Doc: "malformed extended ID"},
 	{Func: "detector.CheckExtendedSpatialIdsOverlap", Class: "INT", Param: 0, Props: "C05 C15", Doc: "non-integer field"},
 	{Func: "detector.CheckExtendedSpatialIdsOverlap", Class: "INT", Param: 1, Props: "C05 C15", Doc: "non-integer field"},
-	{Func: "detector.CheckExtendedSpatialIdsArrayOverlap", Class: "ARITY5", Param: 0, Elem: true, Props: "C05 C15", Doc: "malformed extended ID (when the other list is non-empty)"},
-	{Func: "detector.CheckExtendedSpatialIdsArrayOverlap", Class: "INT", Param: 0, Elem: true, Props: "C05 C15", Doc: "non-integer field (when the other list is non-empty)"},
+	{Func: "detector.CheckExtendedSpatialIdsArrayOverlap", Class: "ARITY5", Param: 0, Elem: true, NonEmpty: 2, Props: "C05 C15", Doc: "malformed extended ID (when the other list is non-empty)"},
+	{Func: "detector.CheckExtendedSpatialIdsArrayOverlap", Class: "INT", Param: 0, Elem: true, NonEmpty: 2, Props: "C05 C15", Doc: "non-integer field (when the other list is non-empty)"},
 	// transform
 	{Func: "transform.ConvertQuadkeysAndVerticalIDsToExtendedSpatialIDs", Class: "Z35", Param: 1, Props: "C11 C15", Doc: "outputHZoom outside 0-35"},
 	{Func: "transform.ConvertQuadkeysAndVerticalIDsToExtendedSpatialIDs", Class: "Z35", Param: 2, Props: "C11 C15", Doc: "outputVZoom outside 0-35"},
@@ -124,7 +125,7 @@ var guardTable = []guardRow{
 }
 
 func scenariosFor(w *World, row guardRow, f *ssa.Function) ([]scenario, string) {
-	base := scenario{Param: row.Param, Elem: row.Elem}
+	base := scenario{Param: row.Param, Elem: row.Elem, NonEmpty: row.NonEmpty}
 	if row.Acc != "" {
 		// resolve getter on the element type
 		fv := getterField(w, f, row.Param, row.Elem, row.Acc)
